@@ -519,12 +519,85 @@ def run_routes(case):
   return routes_agree(case[0], f, spec, canon)
 
 
+# ---------------------------------------------------------------- long streams
+import itertools as _it
+LONG_OPS = [("take", 700), ("skip", 1000), ("peek", 1200), ("limit", 2500), ("copy", None), ("take", 64),
+            ("skip", 65), ("append", 300), ("map", None), ("thub", 2)]
+
+
+def gen_long(run):
+  for src in ("finite", "periodic", "generator"):
+    for seq in _it.permutations(range(len(LONG_OPS)), 3):
+      yield (src, list(seq))
+
+
+def run_long(case):
+  """Counts in the hundreds and thousands on a stream of 5000 items (or a period-7 endless one):
+  the same list model, every live handle drained (finite) or read 3000 items further (endless)."""
+  src, seq = case
+  N = 5000
+  if src == "finite":
+    model, real = list(range(N)), Stream(list(range(N)))
+  elif src == "generator":
+    model, real = [3 * i for i in range(N)], Stream(3 * i for i in range(N))
+  else:
+    model, real = [i % 7 for i in range(20000)], Stream(0, 1, 2, 3, 4, 5, 6)
+  handles = [(model, real, src == "periodic")]
+  for oi in seq:
+    name, arg = LONG_OPS[oi]
+    m, r, endless = handles[0]
+    try:
+      if name == "take":
+        exp, got = m[:arg], r.take(arg)
+        m = m[arg:]
+        if got != exp:
+          return bad("stream-long:take", "take(%d) on a long stream" % arg, exp[:5] + ["..."] + exp[-3:], got[:5] + ["..."] + got[-3:], True)
+      elif name == "peek":
+        exp, got = m[:arg], r.peek(arg)
+        if got != exp:
+          return bad("stream-long:peek", "peek(%d) on a long stream" % arg, len(exp), len(got), True)
+      elif name == "skip":
+        r.skip(arg); m = m[arg:]
+      elif name == "limit":
+        r.limit(arg); m = m[:arg]; endless = False
+      elif name == "append":
+        r.append(list(range(-arg, 0)))
+        if not endless:
+          m = m + list(range(-arg, 0))
+      elif name == "map":
+        r.map(lambda v: v + 1); m = [v + 1 for v in m]
+      elif name == "copy":
+        c = r.copy()
+        handles.append((list(m), c, endless))
+      elif name == "thub":
+        h = thub(r, arg)
+        uses = [Stream(h) for _ in range(arg)]
+        handles = [(list(m), u, endless) for u in uses] + handles[1:]
+        continue
+    except Exception as exc:
+      return bad("stream-long:exception:" + type(exc).__name__, "operation %s raised" % name, None, str(exc)[:200], True)
+    handles[0] = (m, r, endless)
+  for hi, (m, r, endless) in enumerate(handles):
+    want = m[:3000]
+    try:
+      got = r.take(3000) if endless else list(r)[:3000]
+    except Exception as exc:
+      return bad("stream-long:exception:" + type(exc).__name__, "draining raised", None, str(exc)[:200], True)
+    if got != want:
+      k = next((i for i, (g, e) in enumerate(zip(got, want)) if g != e), min(len(got), len(want)))
+      return bad("stream-long:drain", "a handle yields something else than the list model after long operations",
+                 {"handle": hi, "at": k, "length": len(want), "value": want[k] if k < len(want) else None},
+                 {"length": len(got), "value": got[k] if k < len(got) else None}, True)
+  return R(None, True, (src, len(handles)))
+
+
 KINDS = OrderedDict([
   ("hist", Kind(None, run_hist, chunk=16, timeout=30,
                 rule="one case = one state (history); every enabled letter applied from it, then all handles drained")),
   ("noniter", Kind(gen_noniter, run_noniter, rule="thub(x, n) is x for non-iterables")),
   ("call-routes", Kind(gen_routes, run_routes, chunk=1,
                        rule="each function with every documented parameter set: all positional / all keyword / every split must agree")),
+  ("long", Kind(gen_long, run_long, chunk=20, rule="3-operation permutations with counts 64..2500 on streams of 5000 items / endless, list model")),
 ])
 
 
